@@ -87,6 +87,9 @@ func aliasesOf(v ssa.Value) map[ssa.Value]bool {
 // (pass it to non-client code, read its fields, return it) reachable from the
 // constructor on a path on which no successful client call has filled it in.
 // Paths on which a phi selects a different (non-shell) value for the used alias are not counted.
+// A repository function that receives the shell is looked into (two levels): it counts as a use
+// only if it reads the object before filling it in, and as the filling call when none of its
+// successful returns can be reached without a successful client call on the object.
 func UnpopulatedShellUses(fn *ssa.Function) (uses []ShellUse, ctors int) {
 	for _, b := range fn.Blocks {
 		for _, in := range b.Instrs {
@@ -95,86 +98,186 @@ func UnpopulatedShellUses(fn *ssa.Function) (uses []ShellUse, ctors int) {
 				continue
 			}
 			ctors++
-			al := aliasesOf(call)
-			phiClosure := map[*ssa.Phi]map[ssa.Value]bool{}
-			for a := range al {
-				if ph, ok := a.(*ssa.Phi); ok {
-					phiClosure[ph] = aliasesOf(ph)
-				}
+			uses = append(uses, shellUsesFrom(fn, call, PointAfter(call), 0)...)
+		}
+	}
+	return uses, ctors
+}
+
+type shellSummary struct{ reads, populates bool }
+
+var shellSummaries = map[string]shellSummary{}
+
+// shellParamSummary: how the repository function g treats an unpopulated object passed as parameter i.
+func shellParamSummary(g *ssa.Function, i int, depth int) shellSummary {
+	key := FuncName(g) + "#" + string(rune('0'+i))
+	if s, ok := shellSummaries[key]; ok {
+		return s
+	}
+	shellSummaries[key] = shellSummary{reads: true} // recursion guard: pessimistic
+	sum := shellSummary{}
+	if g.Blocks == nil || i >= len(g.Params) || depth >= 2 {
+		sum.reads = true
+		shellSummaries[key] = sum
+		return sum
+	}
+	par := g.Params[i]
+	sum.reads = len(shellUsesFrom(g, par, Entry(g), depth+1)) > 0
+	// populated on success: no nil-able error return reachable without a successful client call on the object
+	al := aliasesOf(par)
+	succ := func(in ssa.Instruction) bool {
+		ret, ok := in.(*ssa.Return)
+		if !ok || ret.Block() == g.Recover || len(ret.Results) == 0 {
+			return false
+		}
+		last := ret.Results[len(ret.Results)-1]
+		if !strings.HasSuffix(last.Type().String(), "error") {
+			return true
+		}
+		for _, lf := range Leaves(last, ret.Block()) {
+			if k, ok := lf.V.(*ssa.Const); ok && k.IsNil() {
+				return true
 			}
-			unpopulated := func(alias ssa.Value, use ssa.Instruction) bool {
-				cut := func(bb *ssa.BasicBlock, k int) bool {
-					// success edge of a client call that received the shell
-					if len(bb.Instrs) > 0 && len(bb.Succs) == 2 {
-						if ifi, ok := bb.Instrs[len(bb.Instrs)-1].(*ssa.If); ok {
-							f := FactOf(ifi.Cond, k == 0)
-							if f.Op == "==" && f.R.Op == "const" && f.R.Name == "nil" && f.L.Call != nil && isClientCallWith(f.L.Call, al) {
-								return true
-							}
-						}
-					}
-					// phi selects a non-shell value for the alias that is used
-					succ := bb.Succs[k]
-					for _, pin := range succ.Instrs {
-						ph, ok := pin.(*ssa.Phi)
-						if !ok {
-							break
-						}
-						cl, isAlias := phiClosure[ph]
-						if !isAlias || !(cl[alias] || ssa.Value(ph) == alias) {
-							continue
-						}
-						for pi, pred := range succ.Preds {
-							if pred == bb && !al[ph.Edges[pi]] {
-								return true
-							}
-						}
-					}
-					return false
-				}
-				reach, _ := CanReach(PointAfter(call), func(x ssa.Instruction) bool { return x == use }, ReachOpts{CutEdge: cut})
-				return reach
+		}
+		return false
+	}
+	reach, _ := CanReach(Entry(g), succ, ReachOpts{CutEdge: func(bb *ssa.BasicBlock, k int) bool { return shellPopulatingEdge(bb, k, al, depth+1) }})
+	sum.populates = !reach
+	shellSummaries[key] = sum
+	return sum
+}
+
+// shellPopulatingEdge: the edge is the success edge (err == nil) of a client call that received the
+// object, or of a repository function that fills it in on success.
+func shellPopulatingEdge(bb *ssa.BasicBlock, k int, al map[ssa.Value]bool, depth int) bool {
+	if len(bb.Instrs) == 0 || len(bb.Succs) != 2 {
+		return false
+	}
+	ifi, ok := bb.Instrs[len(bb.Instrs)-1].(*ssa.If)
+	if !ok {
+		return false
+	}
+	f := FactOf(ifi.Cond, k == 0)
+	if !(f.Op == "==" && f.R != nil && f.R.Op == "const" && f.R.Name == "nil" && f.L != nil && f.L.Call != nil) {
+		return false
+	}
+	if isClientCallWith(f.L.Call, al) {
+		return true
+	}
+	g := f.L.Call.Call.StaticCallee()
+	if g == nil || g.Blocks == nil || g.Pkg == nil || !strings.HasPrefix(g.Pkg.Pkg.Path(), ModPath) {
+		return false
+	}
+	for i, a := range f.L.Call.Call.Args {
+		if argIsAlias(a, al) && shellParamSummary(g, i, depth).populates {
+			return true
+		}
+	}
+	return false
+}
+
+func argIsAlias(a ssa.Value, al map[ssa.Value]bool) bool {
+	if al[a] {
+		return true
+	}
+	switch x := a.(type) {
+	case *ssa.MakeInterface:
+		return al[x.X]
+	case *ssa.ChangeInterface:
+		return al[x.X]
+	}
+	return false
+}
+
+// shellUsesFrom: unpopulated uses of the shell value within fn, starting at `from`.
+func shellUsesFrom(fn *ssa.Function, shell ssa.Value, from Point, depth int) (uses []ShellUse) {
+	al := aliasesOf(shell)
+	phiClosure := map[*ssa.Phi]map[ssa.Value]bool{}
+	for a := range al {
+		if ph, ok := a.(*ssa.Phi); ok {
+			phiClosure[ph] = aliasesOf(ph)
+		}
+	}
+	unpopulated := func(alias ssa.Value, use ssa.Instruction) bool {
+		cut := func(bb *ssa.BasicBlock, k int) bool {
+			if shellPopulatingEdge(bb, k, al, depth) {
+				return true
 			}
-			for a := range al {
-				refs := a.Referrers()
-				if refs == nil {
+			// phi selects a non-shell value for the alias that is used
+			succ := bb.Succs[k]
+			for _, pin := range succ.Instrs {
+				ph, ok := pin.(*ssa.Phi)
+				if !ok {
+					break
+				}
+				cl, isAlias := phiClosure[ph]
+				if !isAlias || !(cl[alias] || ssa.Value(ph) == alias) {
 					continue
 				}
-				for _, r := range *refs {
-					switch u := r.(type) {
-					case ssa.CallInstruction:
-						cn := CalleeName(u.Common())
-						if isClientCallWith(u, al) {
-							continue
-						}
-						if u.Common().IsInvoke() && al[u.Common().Value] {
-							m := u.Common().Method.Name()
-							if strings.HasPrefix(m, "Set") || m == "GetName" || m == "GetNamespace" || m == "GetObjectKind" || m == "DeepCopyObject" {
-								continue
-							}
-						}
-						if strings.HasPrefix(cn, "k8s.io/klog/v2.") {
-							continue
-						}
-						if unpopulated(a, r) {
-							uses = append(uses, ShellUse{call, r, "passed to " + cn})
-						}
-					case *ssa.FieldAddr, *ssa.Field:
-						if unpopulated(a, r) {
-							uses = append(uses, ShellUse{call, r, "field read"})
-						}
-					case *ssa.Return:
-						if unpopulated(a, r) {
-							uses = append(uses, ShellUse{call, r, "returned"})
-						}
-					case *ssa.Store:
-						if u.Val == a && unpopulated(a, r) {
-							uses = append(uses, ShellUse{call, r, "stored"})
+				for pi, pred := range succ.Preds {
+					if pred == bb && !al[ph.Edges[pi]] {
+						return true
+					}
+				}
+			}
+			return false
+		}
+		reach, _ := CanReach(from, func(x ssa.Instruction) bool { return x == use }, ReachOpts{CutEdge: cut})
+		return reach
+	}
+	for a := range al {
+		refs := a.Referrers()
+		if refs == nil {
+			continue
+		}
+		for _, r := range *refs {
+			switch u := r.(type) {
+			case ssa.CallInstruction:
+				cn := CalleeName(u.Common())
+				if isClientCallWith(u, al) {
+					continue
+				}
+				if u.Common().IsInvoke() && al[u.Common().Value] {
+					m := u.Common().Method.Name()
+					if strings.HasPrefix(m, "Set") || m == "GetName" || m == "GetNamespace" || m == "GetObjectKind" || m == "DeepCopyObject" {
+						continue
+					}
+				}
+				if strings.HasPrefix(cn, "k8s.io/klog/v2.") {
+					continue
+				}
+				// a repository function: judged by what it does with the parameter
+				if g := u.Common().StaticCallee(); g != nil && g.Blocks != nil && g.Pkg != nil && strings.HasPrefix(g.Pkg.Pkg.Path(), ModPath) && !u.Common().IsInvoke() {
+					reads := false
+					for i, arg := range u.Common().Args {
+						if argIsAlias(arg, al) && shellParamSummary(g, i, depth).reads {
+							reads = true
 						}
 					}
+					if !reads {
+						continue
+					}
+				}
+				if unpopulated(a, r) {
+					uses = append(uses, ShellUse{shell, r, "passed to " + cn})
+				}
+			case *ssa.FieldAddr, *ssa.Field:
+				if unpopulated(a, r) {
+					uses = append(uses, ShellUse{shell, r, "field read"})
+				}
+			case *ssa.Return:
+				if _, isParam := shell.(*ssa.Parameter); isParam {
+					continue // handing the caller's own object back is not a read
+				}
+				if unpopulated(a, r) {
+					uses = append(uses, ShellUse{shell, r, "returned"})
+				}
+			case *ssa.Store:
+				if u.Val == a && unpopulated(a, r) {
+					uses = append(uses, ShellUse{shell, r, "stored"})
 				}
 			}
 		}
 	}
-	return uses, ctors
+	return uses
 }
